@@ -231,7 +231,8 @@ func (cli *Client) handshake(c diam.Conn) (diam.Conn, error) {
 		select {
 		case err, ok := <-errc: // Wait for CEA.
 			if ok && err != nil {
-				close(errc)
+				// errc is closed by the CEA handler only: closing it here
+				// as well raced with a success CEA handled meanwhile.
 				c.Close()
 				return nil, err
 			}
